@@ -12,7 +12,7 @@ import numpy as np
 
 from ..core import import_library
 from ..gen import terms as G
-from ..probe import Probe, Reach, check_unmutated, snapshot_arrays
+from ..probe import Probe, Reach, ResultKeeper, check_unmutated, snapshot_arrays
 from ..ref import terms as R
 
 WORKERS = {"quick": 1, "thorough": 16}
@@ -59,6 +59,8 @@ class TsukamotoMonitor:
     def _after(self, args, kwargs, token, result, exc):
         ctx = self.ctx
         term, y = args[0], check_unmutated(ctx, f"{type(args[0]).__name__}.tsukamoto", args, token)
+        if getattr(self, "keeper", None) is not None and exc is None:
+            self.keeper.after_call(f"{type(args[0]).__name__}.tsukamoto", result, args[1:2])
         got = R.params_of(term)
         if got is None or not R.valid(*got):
             ctx.hit("out_of_domain:invalid or default parameters")
@@ -84,7 +86,7 @@ class TsukamotoMonitor:
             return
         ys, zs = Y.ravel(), Z.astype(float).ravel()
         ctx.hit(f"calls:{kind}:{'scalar' if Y.ndim == 0 else f'{Y.ndim}d'}")
-        idx = range(ys.size) if ys.size <= 128 else sorted(self.sel.sample(range(ys.size), 96))
+        idx = range(ys.size) if ys.size <= 128 else sorted(set(self.sel.sample(range(ys.size), 96)) | set(range(8)) | set(range(ys.size - 8, ys.size)))
         span = abs(p[1] - p[0]) if kind != "Sigmoid" else 1.0 / abs(p[1])
         tab = None
         if self.table is not None and (len(self.table) < 6000 or (kind, p, h) in self.table):
@@ -180,6 +182,7 @@ def run(ctx):
     with Reach(funcs) as reach, Probe() as probe:
         mon = TsukamotoMonitor(ctx, fl)
         mon.install(probe)
+        mon.keeper = ResultKeeper(ctx)
         kinds = list(R.MONOTONIC)
         for i, rnd in ctx.cases("terms", len(kinds) * nparam):
             kind = kinds[i % len(kinds)]
@@ -209,6 +212,21 @@ def run(ctx):
                 ctx.hit("event:tsukamoto raised in the workload (judged by the monitor)")
             if i < 12 and i % 2 == 0:
                 ctx.sample("term", {"spec": spec, "y": ys[:6], "tsukamoto": term.tsukamoto(np.array(ys[:6]))})
+        # large batches: sizes on both sides of every power of two from 2^12 to 2^17 (block-wise fast paths), 1-D, as a C-ordered
+        # matrix and as a transposed one
+        for i, rnd in ctx.cases("sizes", len(kinds)):
+            kind = kinds[i]
+            spec = G.shape_term(rnd, "t", -2.0, 3.0, kind=kind, d=3, degenerate=False)
+            term = G.build_term(fl, spec)
+            gen = np.random.default_rng(ctx.seed * 100 + i)
+            for n in [2**k + dd for k in range(12, 18) for dd in (0, 1)] + [100_000]:
+                y = gen.random(n) * spec["height"]
+                term.tsukamoto(y)
+                if n % 4 == 0:
+                    term.tsukamoto(y.reshape(4, -1))
+                    term.tsukamoto(y.reshape(4, -1).T)
+                    term.tsukamoto(np.asfortranarray(y.reshape(-1, 4)))
+            ctx.hit("workload:large batch")
         # the same term and array object used again after refilling the array / changing the parameters (stale state, aliasing)
         for i, rnd in ctx.cases("reuse", len(kinds) * ctx.scale(10, 200)):
             kind = kinds[i % len(kinds)]
@@ -263,7 +281,7 @@ def run(ctx):
         probe.report(ctx)
         reach.report(ctx)
     for k in R.MONOTONIC:
-        ctx.require(f"hook:{k}.tsukamoto", f"law:monotone:{k}", "y form:column", "y form:array of one", "refused:Activated", "refused:Aggregated")
+        ctx.require(f"hook:{k}.tsukamoto", f"law:monotone:{k}", "y form:column", "y form:array of one", "refused:Activated", "refused:Aggregated", "workload:large batch", "law:results of earlier calls left alone")
     for k in ("SShape", "ZShape"):
         d = "incr" if k == "SShape" else "decr"
         ctx.require(f"piece:{k}:y<h/2:{d}", f"piece:{k}:y==h/2:{d}", f"piece:{k}:y>h/2:{d}")
